@@ -152,6 +152,31 @@ class Acc:
                 self.extra[k] = v
 
 
+def beat():
+    """Heartbeat for the hang watchdog (a worker waiting for a long native sub-process is not hung)."""
+    if _CRUMB_FD is not None:
+        os.pwrite(_CRUMB_FD, b'.', 9000)
+
+
+def run_beating(cmd, **kw):
+    """subprocess.run(cmd, capture) that keeps the watchdog heartbeat alive while the child works."""
+    import subprocess
+    import tempfile
+    with tempfile.TemporaryFile() as fo, tempfile.TemporaryFile() as fe:
+        p = subprocess.Popen(cmd, stdout=fo, stderr=fe, stdin=subprocess.DEVNULL, **kw)
+        while True:
+            try:
+                p.wait(timeout=10)
+                break
+            except subprocess.TimeoutExpired:
+                beat()
+        fo.seek(0)
+        fe.seek(0)
+        out = fo.read().decode(errors='replace')
+        err = fe.read().decode(errors='replace')
+    return subprocess.CompletedProcess(cmd, p.returncode, out, err)
+
+
 def crumb(case):
     """Record the case about to be executed, so that a crash of the worker (native fault) can be attributed."""
     if _CRUMB_FD is not None:
